@@ -1,5 +1,6 @@
 import CedarVerif.Lemmas.TypecheckOps
 import CedarVerif.Lemmas.TypecheckTags
+import CedarVerif.Lemmas.TypecheckIn
 import CedarVerif.Lemmas.TypecheckDefs2
 /-
 C03: soundness of the typechecker model in strict mode on the second fragment (`InFragment2`): the induction.
@@ -296,7 +297,6 @@ theorem sound2 {s : Schema} {env : RequestEnv} {w : World} (hWF : SchemaWF2 s) (
     simp only [InFragment2, Bool.and_eq_true] at hf
     have iha := sound2 hWF henv a hf.1.2
     have ihb := sound2 hWF henv b hf.2
-    have hop := hf.1.1
     cases op with
     | eq =>
       simp only [typeOf] at h
@@ -368,7 +368,33 @@ theorem sound2 {s : Schema} {env : RequestEnv} {w : World} (hWF : SchemaWF2 s) (
       · obtain ⟨rfl, rfl⟩ := ite_err_ok hk
         exact ⟨rfl, fun hs hc => containsAny_good ((iha caps τa ca hta).2 hs hc).1 (shape_set hsa)
           ((ihb caps τb cb htb).2 hs hc).1 (shape_set hsb)⟩
-    | mem => simp [binOpOK] at hop
+    | mem =>
+      simp only [typeOf] at h
+      obtain ⟨τa, ca, τb, cb, hA, hB, hk⟩ := both_ok h
+      obtain ⟨hta, hsa⟩ := expectOneOf_ok hA
+      obtain ⟨htb, hsb⟩ := expectOneOf_ok hB
+      obtain ⟨hma, ga⟩ := iha caps τa ca hta
+      obtain ⟨hmb, gb⟩ := ihb caps τb cb htb
+      have hTa : ∃ Ta, τa = .entity [Ta] := by
+        rcases subtype_anyEntity hsa with rfl | rfl | ⟨l, rfl⟩
+        · simp [CedarType.mono] at hma
+        · simp [CedarType.mono] at hma
+        · obtain ⟨T, rfl⟩ := mono_entity hma; exact ⟨T, rfl⟩
+      obtain ⟨Ta, rfl⟩ := hTa
+      have hshape := shape_in_rhs hmb hsb
+      have general : ∀ τ c', typeOfInGeneral s (.entity [Ta]) τb = .ok (τ, c') →
+          τ.mono = true ∧ (Sem s env w → CapsHold w caps → Good w (.binaryApp .mem a b) τ c') :=
+        fun τ c' hg => ⟨typeOfInGeneral_mono hg, fun hs hc => inGeneral_good hWF hs.store (ga hs hc).1 (gb hs hc).1 hshape hg⟩
+      split at hk
+      · rename_i l rs hl hrs
+        split at hk
+        · rename_i hact
+          simp only [ok, Except.ok.injEq, Prod.mk.injEq] at hk; obtain ⟨rfl, rfl⟩ := hk
+          obtain ⟨al, hal⟩ := asEuid_declared hl hta hact
+          refine ⟨?_, fun hs _ => actionIn_good hWF henv hs.store hs.actions hl hrs hal⟩
+          rw [typeOfActionIn_eq]; split <;> rfl
+        · exact general _ _ hk
+      · exact general _ _ hk
     | hasTag =>
       simp only [typeOf] at h
       obtain ⟨τa, ca, τb, cb, hA, hB, hk⟩ := both_ok h
